@@ -423,6 +423,8 @@ def generate(seed, profile_name, tie=None, overrides=None):
         prof.update(overrides)
     spec = Gen(rng, prof).generate(seed)
     spec['profile'] = profile_name
+    if overrides and overrides.get('decimal'):
+        spec['decimal'] = True
     if tie:
         spec['tie'] = tie
     return spec
@@ -518,3 +520,12 @@ def generate_fanout(seed, tie='prng'):
     script.sort(key=lambda e: e['t'])
     return {'resources': {}, 'items': items, 'horizon': [horizon], 'tie': tie, 'seed': seed,
             'max_events': 20000, 'script': script, 'profile': 'fanout'}
+
+
+# float-noise profile: decimal (not exactly representable) times; only monitors whose oracle is
+# rounding-independent or carries an explicit ulp tolerance are run on it
+DECIMAL = {'decimal': True,
+           'cts': [0, 0.1, 0.3, 0.7, 1.1, 0.334, 2.2, 1 / 3],
+           'src_cts': [0.1, 0.3, 0.7, 1.1, 0.334, 0.9],
+           'sink_cts': [0, 0, 0.1, 0.7, 1.3],
+           'buffer_delay': [0, 0.1, 0.3, 0.7, 1.1, 2.2, 1 / 3]}
